@@ -1883,6 +1883,9 @@ class Method:
         For the purposes of supporting legacy APIs, additional wrapper types are
         allowed.
         """
+        # A stream is consumed as a stream: there is no next page to ask for.
+        if self.client_streaming or self.server_streaming:
+            return None
 
         for source, source_type, name in (
             (self.input, str, "page_token"),
